@@ -116,11 +116,157 @@ worker(void *arg)
         return NULL;
 }
 
+
+/* ---- directed mode: for every catalogue kind, all threads run that kind at the same time in a tight
+ * loop on pre-built jobs (no arena calls in the loop), so that any state two managers share while a
+ * call is in progress (a static scratch buffer, a table patched at run time) is exercised with
+ * overlapping calls.  Every run of a job must give the digest its first run alone gave. ---- */
+#define HJ 12
+typedef struct {
+        const hx_variant *v;
+        const char *kind;
+        uint64_t seed;
+        int rounds;
+        int idx, nthreads;
+        long mism_solo, mism_conc, runs, built;
+        int first_bad_job, first_bad_round;
+} hctx;
+
+static uint64_t
+hammer_once(IMB_MGR *m, hx_job *js, int n, uint64_t *dig, int set, long *mism, int *fb, int round)
+{
+        uint64_t nret = 0;
+        hx_job *by_slot[IMB_MAX_JOBS];
+        for (int i = 0; i < n; i++) {
+                memcpy(js[i].src, js[i].src_snapshot, js[i].src_size);
+                if (!js[i].sp.inplace && js[i].dst && js[i].dst_pre)
+                        memcpy(js[i].dst, js[i].dst_pre, js[i].dst_size);
+                memcpy(js[i].tag, js[i].tag_pre, js[i].sp.taglen);
+        }
+        for (int i = 0; i <= n; i++) {
+                IMB_JOB *ret;
+                if (i < n) {
+                        IMB_JOB *slot = IMB_GET_NEXT_JOB(m);
+                        hx_job_to_slot(&js[i], slot);
+                        by_slot[slot - m->jobs] = &js[i];
+                        ret = IMB_SUBMIT_JOB(m);
+                } else
+                        ret = IMB_FLUSH_JOB(m);
+                while (ret) {
+                        hx_job *j = by_slot[ret - m->jobs];
+                        uint64_t h = job_dig(ret, j);
+                        int k = (int) (j - js);
+                        if (set)
+                                dig[k] = h;
+                        else if (dig[k] != h) {
+                                if (*mism == 0)
+                                        *fb = k * 1000 + round;
+                                (*mism)++;
+                        }
+                        nret++;
+                        ret = i < n ? IMB_GET_COMPLETED_JOB(m) : IMB_FLUSH_JOB(m);
+                }
+        }
+        return nret;
+}
+
+static void *
+hammer_worker(void *arg)
+{
+        hctx *t = arg;
+        IMB_MGR *m = hx_mgr_new(t->v);
+        hx_job js[HJ];
+        uint64_t dig[HJ];
+        hx_rng r;
+        hx_seed(&r, t->seed);
+        int n = 0;
+        memset(js, 0, sizeof(js));
+        for (int i = 0; i < HJ; i++) {
+                hx_spec sp;
+                if (!hx_spec_from_kind(t->kind, &r, &sp))
+                        break;
+                sp.placement = GA_SLACK;
+                if (hx_job_build(m, &sp, i, &js[n]) == 0)
+                        n++;
+        }
+        t->built = n;
+        t->mism_solo = t->mism_conc = t->runs = 0;
+        int fb = -1;
+        /* alone (the other threads are still building or waiting): first run defines the digests,
+         * second run checks that a re-run is reproducible at all */
+        pthread_barrier_wait(&bar);
+        for (int turn = 0; turn < t->nthreads; turn++) {
+                if (turn == t->idx) {
+                        hammer_once(m, js, n, dig, 1, &t->mism_solo, &fb, -1);
+                        hammer_once(m, js, n, dig, 0, &t->mism_solo, &fb, -1);
+                }
+                pthread_barrier_wait(&bar);
+        }
+        /* all together */
+        fb = -1;
+        for (int rd = 0; rd < t->rounds; rd++)
+                t->runs += (long) hammer_once(m, js, n, dig, 0, &t->mism_conc, &fb, rd);
+        t->first_bad_job = fb < 0 ? -1 : fb / 1000;
+        t->first_bad_round = fb < 0 ? -1 : fb % 1000;
+        for (int i = 0; i < n; i++) {
+                ga_drop_list(js[i].gobj, js[i].ngobj);
+                hx_job_free(&js[i]);
+        }
+        free_mb_mgr(m);
+        return NULL;
+}
+
+static int
+drv_hammer(int nthreads, int rounds, uint64_t seed, const char *only)
+{
+        long total = 0;
+        if (nthreads > 32)
+                nthreads = 32;
+        for (int ki = 0; ki < hx_nkinds; ki++) {
+                if (only && strcmp(only, hx_kinds[ki]) != 0)
+                        continue;
+                hctx hc[32];
+                pthread_t th[32];
+                pthread_barrier_init(&bar, NULL, (unsigned) nthreads);
+                for (int k = 0; k < nthreads; k++) {
+                        hc[k].v = &hx_variants[(k + ki) % hx_nvariants];
+                        hc[k].kind = hx_kinds[ki];
+                        hc[k].seed = hx_mix(seed, (uint64_t) (ki * 64 + k));
+                        hc[k].rounds = rounds;
+                        hc[k].idx = k;
+                        hc[k].nthreads = nthreads;
+                        pthread_create(&th[k], NULL, hammer_worker, &hc[k]);
+                }
+                for (int k = 0; k < nthreads; k++)
+                        pthread_join(th[k], NULL);
+                pthread_barrier_destroy(&bar);
+                ga_reset();
+                for (int k = 0; k < nthreads; k++) {
+                        tr_begin("Hammer");
+                        tr_str("kind", hc[k].kind);
+                        tr_int("t", k);
+                        tr_str("variant", hc[k].v->name);
+                        tr_int("jobs", hc[k].built);
+                        tr_int("runs", hc[k].runs);
+                        tr_int("mism_solo", hc[k].mism_solo);
+                        tr_int("mism_conc", hc[k].mism_conc);
+                        tr_int("bad_job", hc[k].first_bad_job);
+                        tr_int("bad_round", hc[k].first_bad_round);
+                        tr_end();
+                        total += hc[k].runs;
+                }
+        }
+        fclose(hx_trace);
+        fprintf(stderr, "{\"threads\":%d,\"rounds\":%d,\"jobs\":%ld,\"kinds\":%d}\n", nthreads, rounds, total, only ? 1 : hx_nkinds);
+        return 0;
+}
+
 int
 drv_threads(int argc, char **argv)
 {
         const char *out = NULL;
-        int nthreads = 12, nops = 3000, rounds = 3;
+        int nthreads = 12, nops = 3000, rounds = 3, hammer = 0;
+        const char *only = NULL;
         uint64_t seed = 1;
         for (int i = 0; i < argc; i++) {
                 if (!strcmp(argv[i], "--out"))
@@ -133,10 +279,16 @@ drv_threads(int argc, char **argv)
                         rounds = atoi(argv[++i]);
                 else if (!strcmp(argv[i], "--seed"))
                         seed = strtoull(argv[++i], NULL, 0);
+                else if (!strcmp(argv[i], "--hammer"))
+                        hammer = 1;
+                else if (!strcmp(argv[i], "--kind"))
+                        only = argv[++i];
         }
         if (nthreads > 32)
                 nthreads = 32;
         hx_trace = out ? fopen(out, "w") : stdout;
+        if (hammer)
+                return drv_hammer(nthreads, rounds, seed, only);
         tctx solo[32], conc[32];
         long total = 0;
         for (int rd = 0; rd < rounds; rd++) {
